@@ -4,6 +4,18 @@ from harness.mrun import RunProp
 
 class C01(RunProp):
     id = 'C01'
+    manifest = {
+        'text': 'Theorems about a Lean model of TestCase.run/RunTest for ALL test programs (any nesting of cleanups and fixtures, any of 12 '
+                'exception kinds incl. KeyboardInterrupt/SystemExit subclasses in any stages, MultipleExceptions, decorators, user handler '
+                'tables, 7 result flavours, any left-over force_failure, any number of repeated runs): the result calls are exactly startTest, '
+                'one outcome, stopTest; a non-Exception exception is reported as error and propagates; otherwise run() returns; the complete '
+                'stage sequence runs (stack-machine check). The model is tied to the code by the exception_handlers table regenerated from '
+                'testcase.py on every run and by a differential check running generated TestCase classes against the model.',
+        'note': 'trusted: Lean kernel; hand-written model TTV/Model/RunTest.lean; harness/mrun.py (program -> real TestCase, canonicalisation of '
+                'tracebacks to exception identities); hypothesis wf: distinct stage ids, user handlers only for Exception subclasses; '
+                'CPython try/finally + fixtures library modelled, not verified',
+        'technique': 'Lean 4 invariant proofs over an executable model of the runner (well-founded cleanup loop, fun_induction), generated handler table, differential correspondence',
+    }
     rule = ('random test programs (setUp/body/tearDown + nested cleanups up to depth 2, fixtures, patches, details, expectThat/assertThat '
             'mismatches, expectFailure, MultipleExceptions incl. empty, skip/expectedFailure decorators, user exception handlers, '
             'addOnException handlers) over 12 exception kinds incl. KeyboardInterrupt/SystemExit and their subclasses, run 1-3 times on one '
